@@ -1,6 +1,6 @@
 (* Facts about the first-appearance lists of Model/TTable.v. *)
 From Coq Require Import String Ascii List Bool Arith Lia.
-From KV Require Import Lib.TableDef Model.TTable.
+From KV Require Import Lib.TableDef Gen.TTModelSrc Model.TTable.
 Import ListNotations.
 Open Scope string_scope.
 
@@ -29,3 +29,17 @@ Proof.
   - intro H. apply In_filter_neq in H as [_ H]. congruence.
   - apply NoDup_filter. exact IH.
 Qed.
+
+(* What smgen's table model does NOW (Gen/TTModelSrc.v is regenerated from its source on every run): these two
+   equations stop compiling if the signature key goes back to the concatenated string or if transitionsperstate
+   stops listing the states without outgoing rows -- and with them every proof of C08, C09 and C10 that uses them. *)
+Lemma actionsignatures_pair : forall t,
+  actionsignatures t = dedup_pair (map (fun r => (r_act r, r_ev r)) (filter (fun r => negb (is_none (r_act r))) t)).
+Proof. reflexivity. Qed.
+
+Lemma tps_states_all : forall t,
+  tps_states t = (src_states t ++ filter (fun s => negb (mem s (src_states t))) (states t))%list.
+Proof. reflexivity. Qed.
+
+Lemma tt_model_insertion_ordered : tt_containers_insertion_ordered = true.
+Proof. reflexivity. Qed.
